@@ -65,7 +65,7 @@ def parse_answer(ans):
 
 def run(ck, pid, n_quick, n_thorough, profiles, want=("stream",)):
     n = n_thorough if ck.thorough else n_quick
-    outs = pipe_common.run_corpus(ck, n, profiles=profiles, want=want)
+    outs = pipe_common.run_corpus(ck, n, profiles=profiles, want=want, sweep=True)      # pattern sweep first (harness/sweep.py)
     lines, owners = [], []
     for o in outs:
         ck.count("status_" + str(o.get("status", "harness-exception")))
